@@ -16,7 +16,7 @@ def run(ctx):
     mworld.run_family(
         ctx, "C37", scenarios=[3, 10], impls=['basicmutable', 'overlay-basic', 'overlay-mutable', 'overlay-empty'],
         sections=['result-overaccept', 'validity'], finish=False,
-        focused=(150, 2000))
+        focused=(150, 800))
     # build half: every source of StaticWorld scenario 1 (valid and invalid features of every class) built as a basic
     # world and as a compact world; what the build keeps must pass the independent validity check and equal
     # StaticWorld!ValidSubset (a kept invalid feature shows up as a lookup/validity mismatch)
